@@ -15,6 +15,7 @@ import (
 	"regexp"
 	"strconv"
 	"strings"
+	"unicode/utf8"
 
 	"github.com/kaptinlin/gozod"
 	"github.com/kaptinlin/gozod/core"
@@ -116,6 +117,8 @@ func (c chk) tokens() string {
 		return c.kind + " " + hexs(c.s)
 	case "re":
 		return "re " + strconv.Itoa(c.n)
+	case "rel":
+		return "rel " + strconv.Itoa(c.n) + " " + hexs(c.s)
 	}
 	return c.kind
 }
@@ -147,6 +150,8 @@ func applyStrCheck(s any, pos int, c chk) any {
 		return call("Includes", c.s, m)
 	case "re":
 		return call("RegexString", regexFamily[c.n%4], m)
+	case "rel":
+		return call("RegexString", literalPattern(c.n, c.s), m)
 	case "lc":
 		return call("Lowercase", m)
 	case "uc":
@@ -159,6 +164,38 @@ func applyStrCheck(s any, pos int, c chk) any {
 		return call("ToUpperCase")
 	}
 	panic("check " + c.kind)
+}
+
+// literalPattern: a pure-literal pattern in one of six anchoring shapes.
+func literalPattern(mode int, lit string) string {
+	q := regexp.QuoteMeta(lit)
+	switch mode {
+	case 0:
+		return q
+	case 1:
+		return "^" + q
+	case 2:
+		return q + "$"
+	case 3:
+		return "^" + q + "$"
+	case 4:
+		return `\A` + q + `\z`
+	}
+	return "^(?:" + q + ")$"
+}
+
+// asciiFrag: a fragment of the input usable as a pattern literal (the regexp parser wants valid UTF-8).
+func asciiFrag(r *hx.Rng, in string, where int) string {
+	f := pickFrag(r, in, where)
+	for i := 0; i < len(f); i++ {
+		if f[i] >= 0x80 || f[i] == '\n' {
+			return hx.Pick(r, []string{"a", "ab", "z", "v1.2", "", "a b", "x+"})
+		}
+	}
+	if r.Chance(15) {
+		return in[:min(len(in), 3)] + "" // maybe the whole (short) input
+	}
+	return f
 }
 
 var alphabet = []byte("aAxXbZ z!7é")
@@ -197,7 +234,7 @@ func runStrings(o *hx.Out, r *hx.Rng, n int) {
 		var cs []chk
 		unicodeSensitive := false
 		for j := 0; j < nchecks; j++ {
-			k := hx.Pick(r, []string{"min", "max", "len", "sw", "ew", "inc", "lc", "uc", "trim", "lower", "upper", "re"})
+			k := hx.Pick(r, []string{"min", "max", "len", "sw", "ew", "inc", "lc", "uc", "trim", "lower", "upper", "re", "rel"})
 			if k == "trim" || k == "lower" || k == "upper" {
 				unicodeSensitive = true
 			}
@@ -221,6 +258,12 @@ func runStrings(o *hx.Out, r *hx.Rng, n int) {
 				}
 			case "re":
 				cs[j].n = r.Intn(4)
+			case "rel":
+				cs[j].n = r.Intn(6)
+				cs[j].s = asciiFrag(r, in, r.Intn(3))
+				if !utf8.ValidString(cs[j].s) {
+					cs[j].s = "ab"
+				}
 			case "sw":
 				cs[j].s = pickFrag(r, in, 0)
 			case "ew":
